@@ -165,7 +165,7 @@ def normalise_statements(idx, module, stmts, cls=None, depth=3, keep=()):
                             envs = None
                             break
                     # element expressions must be side-effect free names / constants / tuples of those
-                    if envs is not None and all(isinstance(x, (ast.Name, ast.Constant, ast.Tuple, ast.List, ast.Load, ast.UnaryOp, ast.USub, ast.Attribute)) for env_ in envs for v_ in env_.values() for x in ast.walk(v_)):
+                    if envs is not None and all(isinstance(x, (ast.Name, ast.Constant, ast.Tuple, ast.List, ast.Load, ast.UnaryOp, ast.USub, ast.Attribute, ast.Subscript)) for env_ in envs for v_ in env_.values() for x in ast.walk(v_)):
                         for env_ in envs:
                             out.extend(norm([_subst_stmt(b, env_) for b in st.body], depth))
                         continue
